@@ -267,9 +267,9 @@ def report_violation(prop: str, entry: Dict[str, Any], tier: str) -> Path:
 
 
 def cmd_replay(args) -> int:
+    obj = C.read_replay(os.path.abspath(args.path))  # before the working directory is pinned
     _pin_cwd()
     C.import_pyrefact()
-    obj = C.read_replay(args.path)
     res = C.fork_call(_replay_one, ({"engine": obj["engine"], "case": obj["case"]},), timeout=600.0)
     vs = res.get("violations", [res["violation"]] if res.get("violation") else [])
     want = obj["violation"]["class"]
